@@ -512,13 +512,9 @@ def u_getquerymatches(I):
     # loop ordinals inside GetQueryMatches: 0 mol constraints (concrete list), 1 filter 1, 2 inner bond constraints (concrete), ...
     fn = source.find_function(MQ, 'MolQuery.GetQueryMatches')[2]
     ords = []
-    k = 0
-    for n_ in ast.walk(fn):
-        if isinstance(n_, (ast.For, ast.While)):
-            tgt = n_.target.id if isinstance(n_, ast.For) and isinstance(n_.target, ast.Name) else None
-            itn = ast.unparse(n_.iter) if isinstance(n_, ast.For) else ''
-            ords.append((k, tgt, itn))
-            k += 1
+    for k, n_ in enumerate(W_.loops_of(fn)):
+        tgt = n_.target.id if isinstance(n_, ast.For) and isinstance(n_.target, ast.Name) else None
+        ords.append((k, tgt, ''))
     outer = [o_ for o_ in ords if o_[1] == 'match_indice']
     if len(outer) != 3:
         raise Unsupported('GetQueryMatches no longer has three filter loops over match_indice')
